@@ -428,6 +428,15 @@ pub trait Language {
 
 /// Lookup any refeferences to other typeshared types in order to build
 /// a list of imports for the generated module.
+/// The lines of a doc comment that may span several (`/** .. */` or `#[doc = ".."]`). `\r\n`, `\n`
+/// and a carriage return on its own all end a line: a `//` or `#` comment of every target language
+/// except Go ends at a lone `\r`, so the text after it must start a comment line of its own.
+pub(crate) fn doc_lines(comment: &str) -> impl Iterator<Item = &str> {
+    comment
+        .split('\n')
+        .flat_map(|line| line.strip_suffix('\r').unwrap_or(line).split('\r'))
+}
+
 /// Write `value` as a double-quoted string literal that Kotlin, Scala and Go read back as exactly
 /// `value`. Rust's `{:?}` is not that: it spells combining marks, variation selectors and control
 /// characters as `\u{..}`, which none of these languages accepts. `escape_dollar`: Kotlin, where a
